@@ -24,7 +24,7 @@ import (
 func init() { register("C01", runC01) }
 
 var c01Constructs = []string{"Split", "ProcessParallel", "ParallelForEach", "itertool.Worker", "Map", "ParallelBuffer", "Buffer",
-	"MergeIterators", "GenerateParallel", "ConcurrentReadOne", "WorkerPool", "OperationPool", "Map(ParallelBuffer(Split1))", "ProcessParallel(Buffer(Merge))", "itertool.Process"}
+	"MergeIterators", "GenerateParallel", "ConcurrentReadOne", "WorkerPool", "OperationPool", "Map(ParallelBuffer(Split1))", "ProcessParallel(Buffer(Merge))", "itertool.Process", "FirstAdvance"}
 
 var c01Workers = []int{1, 2, 3, 4, 8, 16, 33}
 
@@ -291,6 +291,86 @@ func c01Case(r *kit.Run, idx int64, rng *rand.Rand) {
 			obs.got(drain(ctx, out, conSp, seed, n)...)
 			obs.closeErr = out.Close()
 			ordered = false
+		case "FirstAdvance":
+			// many small fresh pipelines; the first advance of each comes from
+			// several goroutines released together (the lazily started stage
+			// must still be started once, and nothing may be lost)
+			wantOut = true
+			stage := []string{"Map", "Split", "ParallelBuffer", "Buffer", "GenerateParallel", "MergeIterators"}[seed/3%6]
+			readers := 2 + int(seed/5%7)
+			rounds, m := 24, 1+int(seed/11%12)
+			n = rounds * m
+			expect = make([]int, n)
+			for i := range expect {
+				expect[i] = i + 1
+			}
+			w2 := 2 + int(seed/13%3)
+			wantInvoked = stage == "Map"
+			slowLast := seed%3 != 0 // the last item of every pipeline takes a moment to produce / transform
+			desc["stage"], desc["readers"], desc["fresh_pipelines"], desc["n"], desc["workers"], desc["slow_last_item"] = stage, readers, rounds, n, w2, slowLast
+			linger := func(last bool) {
+				if last && slowLast {
+					kit.Yields(20 + int(seed%40))
+				}
+			}
+			mk := func(ids []int) *fun.Iterator[int] {
+				var i atomic.Int64
+				return fun.Generator(func(context.Context) (int, error) {
+					k := int(i.Add(1))
+					if k > len(ids) {
+						return 0, io.EOF
+					}
+					linger(k == len(ids) && stage != "Map")
+					return ids[k-1], nil
+				})
+			}
+			for rd := 0; rd < rounds; rd++ {
+				ids := expect[rd*m : (rd+1)*m]
+				var outs []*fun.Iterator[int]
+				switch stage {
+				case "Map":
+					outs = append(outs, fun.Map(mk(ids), func(_ context.Context, id int) (int, error) {
+						obs.inv(id)
+						linger(id == ids[len(ids)-1])
+						return id, nil
+					}, fun.WorkerGroupConfNumWorkers(w2)))
+				case "Split":
+					outs = mk(ids).Split(readers)
+				case "ParallelBuffer":
+					outs = append(outs, mk(ids).ParallelBuffer(w2))
+				case "Buffer":
+					outs = append(outs, mk(ids).Buffer(w2))
+				case "GenerateParallel":
+					var i atomic.Int64
+					outs = append(outs, fun.Producer[int](func(context.Context) (int, error) {
+						k := int(i.Add(1))
+						if k > len(ids) {
+							return 0, io.EOF
+						}
+						linger(k == len(ids))
+						return ids[k-1], nil
+					}).GenerateParallel(fun.WorkerGroupConfNumWorkers(w2)))
+				default:
+					outs = append(outs, fun.MergeIterators(mk(ids[:len(ids)/2]), mk(ids[len(ids)/2:]), mk(nil)))
+				}
+				bar := kit.NewSpinBarrier(readers)
+				var wg sync.WaitGroup
+				for c := 0; c < readers; c++ {
+					wg.Add(1)
+					go func(c int) {
+						defer wg.Done()
+						it := outs[c%len(outs)]
+						bar.Wait()
+						obs.got(drain(ctx, it, kit.Fast, seed, n)...)
+					}(c)
+				}
+				wg.Wait()
+				for _, it := range outs {
+					if err := it.Close(); err != nil {
+						obs.closeErr = err
+					}
+				}
+			}
 		case "ConcurrentReadOne":
 			wantOut = true
 			// the interesting moment is the end of the stream (one reader
